@@ -108,8 +108,38 @@ def _in_code_under_test(e):
     return _raised_in_code_under_test(e)
 
 
-def user_fn(*a, **k):  # module-level so that fully_qualified_name is stable
-    raise AssertionError("never called directly")
+class _UserCallable:
+    """The function of a call is the USER's object: here a callable instance (module-level class, so that fully_qualified_name is stable) that is FALSY and
+    whose __repr__ RAISES (a repr that reads state set only after a successful call, a proxy to a dead connection, ...).  The library shows callables in
+    messages (NodeError / CallError text, Call.__repr__) - building the error for a failed call must not itself fail because the callable cannot be shown
+    (reprlib, which the library's repr helper uses, falls back to a generic text)."""
+
+    def __call__(self, *a, **k):
+        raise AssertionError("never called directly")
+
+    def __repr__(self):
+        # raises for the library (whoever asks from code of the tree under verification, directly or through the standard library), answers the sidecars
+        import os
+        import sys
+
+        from ujvc.z3env import REPO_SRC
+
+        here = os.path.dirname(os.path.dirname(os.path.abspath(__file__)))
+        fr = sys._getframe(1)
+        while fr is not None:
+            fn = fr.f_code.co_filename
+            if fn.startswith(REPO_SRC):
+                raise RuntimeError("the user's __repr__ raises")
+            if fn.startswith(here):
+                break
+            fr = fr.f_back
+        return "<user callable whose repr raises for the library>"
+
+    def __len__(self):
+        return 0
+
+
+user_fn = _UserCallable()
 
 
 @unit("runphys.process", props=["C01", "C06", "C10", "C15", "C16", "C19"],
